@@ -1,4 +1,4 @@
-//go:build verif
+//go:build verif && verif_c15wb
 
 /*
  * Copyright 2025 CloudWeGo Authors
@@ -19,6 +19,11 @@
 package compose
 
 import "reflect"
+
+// The white-box group of property C15 (build tags verif && verif_c15wb): only the C15 harness asks for the sub-tag, and it
+// builds without it (its unit cases then run as static values of a node through the public API), so a rename of convertTo
+// or pathSeparator that this file does not follow cannot stop the other properties' harnesses (built with -tags verif) from
+// compiling.
 
 // VerifC15ConvertTo re-exports convertTo (the pre-node converter of field mappings) for the
 // verification harness of property C15: target path (elements joined by VerifC15PathSeparator) -> value.
